@@ -4,7 +4,7 @@
    The code stores the part of a key before the EOT byte as msgid and the part after it as msgctxt (defect D15): the property as stated
    is refuted, it is proved for catalogs without contexts, and for all catalogs up to that exchange (as_returned). *)
 From Coq Require Import List NArith Bool.
-From I18n Require Import Lib.Outcome Model.MoParser Spec.MoFormat Proofs.MoStrings Proofs.MoParser Proofs.MoCorollaries.
+From I18n Require Import Lib.Outcome Model.MoParser Spec.MoFormat Proofs.MoStrings Proofs.MoParser Proofs.MoCorollaries Proofs.MoCharset.
 Import ListNotations.
 Local Open Scope N_scope.
 
@@ -56,6 +56,18 @@ Theorem C08_charset : forall asc enc0 c,
   end.
 Proof. exact catalog_charset_spec. Qed.
 Print Assumptions C08_charset.
+
+(* ... and that is the charset the header entry names in gettext's reading (first "charset=", name up to the next blank; Spec
+   declares_charset), when the name is not empty and ASCII: used if the oracle accepts it, ASCII otherwise *)
+Theorem C08_charset_declared : forall asc e c name,
+  sort_key e = [] -> declares_charset (val_of e) name -> name <> [] -> forallb is_ascii name = true ->
+  catalog_charset asc None (e :: c) = Some (if asc name then name else ascii_name).
+Proof. exact catalog_charset_declared. Qed.
+Print Assumptions C08_charset_declared.
+
+Theorem C08_charset_no_header : forall asc e c, sort_key e <> [] -> catalog_charset asc None (e :: c) = Some ascii_name.
+Proof. exact catalog_charset_no_header. Qed.
+Print Assumptions C08_charset_no_header.
 
 (* non-vacuity: a 3-entry big-endian file, minor revision 1, hash table present, tables after the strings, the value of the
    third entry stored inside the key of the second one; it encodes ex_catalog (context and plural included) *)
